@@ -262,54 +262,53 @@ def small_clause(name):
     return '        r matches Some(bs) ==> bs_small(bs),  // @' + name + '#small'
 
 
-def grid_partial():
-    return ['    requires wf_partial(partial),', '    ensures', small_clause('plain')] + [clause(c.format(p='partial'), 'shape_ok_c(r, npm_plain_c(partial))', 'plain#' + s) for s, c in SHAPES]
+def grid_partial(P='partial'):
+    return ['    requires wf_partial(%s),' % P, '    ensures', small_clause('plain')] + [clause(c.format(p=P), 'shape_ok_c(r, npm_plain_c(%s))' % P, 'plain#' + s) for s, c in SHAPES]
 
 
-def grid_caret():
-    out = ['    requires wf_partial(parsed),', '    ensures', small_clause('caret')]
-    P = 'parsed'
+def grid_caret(P='parsed'):
+    out = ['    requires wf_partial(%s),' % P, '    ensures', small_clause('caret')]
     for s, c in SHAPES:
         c = c.format(p=P)
         if s == 'N':
-            out.append(clause(c, 'shape_ok_c(r, npm_caret_c(parsed))', 'caret#N'))
+            out.append(clause(c, 'shape_ok_c(r, npm_caret_c(%s))' % P, 'caret#N'))
         elif s in ('M', 'M.m'):
-            out.append(clause(c + ' && pM(parsed) == 0', 'shape_ok_c(r, npm_caret_c(parsed))', 'caret#0:' + s))
-            out.append(clause(c + ' && pM(parsed) != 0', 'shape_ok_c(r, npm_caret_c(parsed))', 'caret#+:' + s))
+            out.append(clause(c + ' && pM(%s) == 0' % P, 'shape_ok_c(r, npm_caret_c(%s))' % P, 'caret#0:' + s))
+            out.append(clause(c + ' && pM(%s) != 0' % P, 'shape_ok_c(r, npm_caret_c(%s))' % P, 'caret#+:' + s))
         else:
-            out.append(clause(c + ' && pM(parsed) == 0 && pm(parsed) == 0', 'shape_ok_c(r, npm_caret_c(parsed))', 'caret#0.0:' + s))
-            out.append(clause(c + ' && pM(parsed) == 0 && pm(parsed) != 0', 'shape_ok_c(r, npm_caret_c(parsed))', 'caret#0.+:' + s))
-            out.append(clause(c + ' && pM(parsed) != 0', 'shape_ok_c(r, npm_caret_c(parsed))', 'caret#+:' + s))
+            out.append(clause(c + ' && pM(%s) == 0 && pm(%s) == 0' % (P, P), 'shape_ok_c(r, npm_caret_c(%s))' % P, 'caret#0.0:' + s))
+            out.append(clause(c + ' && pM(%s) == 0 && pm(%s) != 0' % (P, P), 'shape_ok_c(r, npm_caret_c(%s))' % P, 'caret#0.+:' + s))
+            out.append(clause(c + ' && pM(%s) != 0' % P, 'shape_ok_c(r, npm_caret_c(%s))' % P, 'caret#+:' + s))
     return out
 
 
-def grid_tilde():
-    out = ['    requires wf_partial(parsed.1),', '    ensures', small_clause('tilde')]
-    for g, gc in (('~', 'parsed.0 is None'), ('~>', 'parsed.0 is Some')):
+def grid_tilde(P='parsed'):
+    out = ['    requires wf_partial(%s.1),' % P, '    ensures', small_clause('tilde')]
+    for g, gc in (('~', '%s.0 is None' % P), ('~>', '%s.0 is Some' % P)):
         for s, c in SHAPES:
-            out.append(clause(gc + ' && ' + c.format(p='parsed.1'), 'shape_ok_c(r, npm_tilde_c(parsed.1))', 'tilde#' + g + s))
+            out.append(clause(gc + ' && ' + c.format(p=P + '.1'), 'shape_ok_c(r, npm_tilde_c(%s.1))' % P, 'tilde#' + g + s))
     return out
 
 
 OPS = ['Exact', 'GreaterThan', 'GreaterThanEquals', 'LessThan', 'LessThanEquals']
 
 
-def grid_primitive(op):
-    out = ['    requires wf_partial(parsed.1), parsed.0 == Operation::' + op + ',', '    ensures', small_clause('primitive#' + op)]
+def grid_primitive(op, P='parsed'):
+    out = ['    requires wf_partial(%s.1), %s.0 == Operation::' % (P, P) + op + ',', '    ensures', small_clause('primitive#' + op)]
     for s, c in SHAPES:
         # `<=1` / `<=1.2` are written as `<=1.MAX.MAX` / `<=1.2.MAX` (pinned by the suite): same admitted versions, stated as such
         post = 'shape_equiv_c' if (op == 'LessThanEquals' and s in ('M', 'M.m')) else 'shape_ok_c'
-        out.append(clause(c.format(p='parsed.1'), post + '(r, npm_primitive_c(parsed.0, parsed.1))', 'primitive#' + op + ':' + s))
+        out.append(clause(c.format(p=P + '.1'), post + '(r, npm_primitive_c(%s.0, %s.1))' % (P, P), 'primitive#' + op + ':' + s))
     return out
 
 
-def grid_hyphen():
-    out = ['    requires wf_partial(upper), lower matches Some(f) ==> wf_partial(f),', '    ensures', small_clause('hyphen')]
-    lowers = [('none', 'lower is None')] + [(s, 'lower is Some && ' + c.format(p='lower->0')) for s, c in SHAPES]
+def grid_hyphen(L='lower', U='upper'):
+    out = ['    requires wf_partial(%s), %s matches Some(f) ==> wf_partial(f),' % (U, L), '    ensures', small_clause('hyphen')]
+    lowers = [('none', '%s is None' % L)] + [(s, '%s is Some && ' % L + c.format(p=L + '->0')) for s, c in SHAPES]
     for ls, lc in lowers:
         for s, c in SHAPES:
-            tgt = 'npm_hyphen_to_only_c(upper)' if ls == 'none' else 'npm_hyphen_c(lower->0, upper)'
-            out.append(clause(lc + ' && ' + c.format(p='upper'), 'shape_ok_c(r, ' + tgt + ')', 'hyphen#' + ls + ' - ' + s))
+            tgt = ('npm_hyphen_to_only_c(%s)' % U) if ls == 'none' else 'npm_hyphen_c(%s->0, %s)' % (L, U)
+            out.append(clause(lc + ' && ' + c.format(p=U), 'shape_ok_c(r, ' + tgt + ')', 'hyphen#' + ls + ' - ' + s))
     return out
 
 
@@ -320,7 +319,7 @@ DESUGAR_HINT_HEAD = """{
         assert forall|s: Seq<Identifier>| #![trigger s.len()] s.len() == 0 implies s == Seq::<Identifier>::empty() by { assert(s =~= Seq::<Identifier>::empty()); }
 """
 DESUGAR_HINT = DESUGAR_HINT_HEAD + " }\n    "
-DESUGAR_HINT_LE = DESUGAR_HINT_HEAD + """        assert forall|w: Seq<Identifier>| #![trigger pre_cmp(w, pre0())] w.len() > 0 implies pre_cmp(w, pre0()) != Ordering::Less by { lemma_least_pre0(w); lemma_pre_flip(w, pre0()); }
+DESUGAR_HINT_LE_T = DESUGAR_HINT_HEAD + """        assert forall|w: Seq<Identifier>| #![trigger pre_cmp(w, pre0())] w.len() > 0 implies pre_cmp(w, pre0()) != Ordering::Less by { lemma_least_pre0(w); lemma_pre_flip(w, pre0()); }
         // `<=M` is written `<=M.MAX.MAX`, `<=M.m` is written `<=M.m.MAX`: same versions below, no opt-in on either side
         if parsed.1.major is Some {
             let mj = parsed.1.major->0 as int;
@@ -338,6 +337,13 @@ DESUGAR_HINT_LE = DESUGAR_HINT_HEAD + """        assert forall|w: Seq<Identifier
     """
 
 
+
+def desugar_hint_le(P='parsed'):
+    return DESUGAR_HINT_LE_T.replace('parsed.1', P + '.1')
+
+
+DESUGAR_HINT_LE = desugar_hint_le()
+
 # ---------------------------------------------------------------------------------------------- locals by placeholder
 # The annotations above are written with the names the locals have today; they are stored with placeholders ($L<n> = variable of the
 # n-th `for` loop, $M<n> = n-th `let mut`), so that renaming a local in /repo does not detach the proof from the code.
@@ -350,7 +356,7 @@ def _tpl(kw, names):
             t = _re.sub(r'(?<![\w$])' + nm + r'(?![\w])', ph, t)
         return t
     out = dict(kw)
-    for k in ('entry',):
+    for k in ('entry', 'contract'):
         if k in out:
             out[k] = sub(out[k])
     for k in ('loops',):
@@ -365,6 +371,22 @@ def _tpl(kw, names):
     return out
 
 
+for _k in list(VERSION):
+    VERSION[_k] = _tpl(VERSION[_k], {'other': '$P0', 'range': '$P0', 'state': '$P0'})
+for _k in ('allows_all', 'allows_any', 'intersect', 'difference'):
+    BOUNDSET[_k] = _tpl(BOUNDSET[_k], {'other': '$P0'})
+BOUNDSET['new'] = _tpl(BOUNDSET['new'], {'lower': '$P0', 'upper': '$P1'})
+BOUNDSET['at_least'] = _tpl(BOUNDSET['at_least'], {'p': '$P0'})
+BOUNDSET['at_most'] = _tpl(BOUNDSET['at_most'], {'p': '$P0'})
+BOUNDSET['exact'] = _tpl(BOUNDSET['exact'], {'version': '$P0'})
+BOUNDSET['satisfies'] = _tpl(BOUNDSET['satisfies'], {'version': '$P0'})
+for _k in ('allows_all', 'allows_any', 'intersect', 'difference'):
+    RANGE[_k] = _tpl(RANGE[_k], {'other': '$P0'})
+for _k in ('max_satisfying', 'min_satisfying'):
+    RANGE[_k] = _tpl(RANGE[_k], {'versions': '$P0'})
+RANGE['satisfies'] = _tpl(RANGE['satisfies'], {'version': '$P0'})
+INTERSECT_ALL = _tpl(INTERSECT_ALL, {'comparators': '$P0'})
+FROM_PARTIAL = _tpl(FROM_PARTIAL, {'partial': '$P0'})
 RANGE['satisfies'] = _tpl(RANGE['satisfies'], {'range': '$L0'})
 RANGE['allows_any'] = _tpl(RANGE['allows_any'], {'this': '$L0', 'that': '$L1'})
 RANGE['allows_all'] = _tpl(RANGE['allows_all'], {'this': '$L0', 'that': '$L1'})
